@@ -94,6 +94,7 @@ def headerFields : List (List Nat × List (List Nat)) → List (List Nat × List
       match vv with
       | [] => (fs, true)
       | v :: _ => if v = [] then (fs, true) else ((lk, v) :: fs, true)
+    else if lk = nTe then ((vv.filter (fun v => v = vTrailers)).map (fun v => (lk, v)) ++ fs, ua)
     else (vv.map (fun v => (lk, v)) ++ fs, ua)
 
 def isExtendedConnect (w : WReq) : Bool := w.method = mConnect && w.proto ≠ [] && w.proto ≠ vHTTP11
@@ -157,10 +158,13 @@ def declaredTrailers (hs : List (List Nat × List (List Nat))) : List (List Nat)
   ((((hs.filter (fun kv => kv.1 == kTrailer)).flatMap (·.2)).flatMap (splitOn 44)).map (fun t => canonKey (trimSpace t))).filter validTrailerHeader
 
 /-- the regular fields of a response header section: every header that is neither a declared trailer
-    nor `Trailer:`-prefixed, name lower-cased, in map iteration order -/
+    nor `Trailer:`-prefixed nor connection-specific (`isConnectionSpecificHeader`), name lower-cased, in
+    map iteration order; TE values other than "trailers" are skipped -/
 def responseRegular (hs : List (List Nat × List (List Nat))) : List (List Nat × List Nat) :=
   hs.flatMap (fun kv =>
-    if (declaredTrailers hs).contains kv.1 || trailerPrefix.isPrefixOf kv.1 then [] else kv.2.map (fun v => (lowerASCII kv.1, v)))
+    if (declaredTrailers hs).contains kv.1 || trailerPrefix.isPrefixOf kv.1 ||
+        Uquic.Gen.H3Fields.invalidHeaderFields.contains (lowerASCII kv.1) then []
+    else (kv.2.filter (fun v => !(lowerASCII kv.1 = nTe && v ≠ vTrailers))).map (fun v => (lowerASCII kv.1, v)))
 
 /-- `responseWriter.writeHeader(status)` on a writer that has not declared trailers before -/
 def responseFields (status : Int) (hs : List (List Nat × List (List Nat))) : List (List Nat × List Nat) :=
